@@ -385,16 +385,65 @@ def gen_profile():
     ships_release = bool(re.search(r"cargo build --bin tacd --release", mk))
     srv = vlib.read_repo("tacd/src/openssl_server.rs")
     code = "\n".join(l.split("//")[0] for l in srv.split("\n"))
-    if "listen_and_accept" not in code or ".accept(" not in code:
+    if ".incoming()" not in code or ".accept(" not in code:
         raise GenError("tacd accept loop not recognised")
     unwraps = bool(re.search(r"\.accept\([^)]*\)\s*\.\s*(unwrap|expect)\s*\(", code))
-    macro = _braced(code, code.index("macro_rules! listen_and_accept"))
+    # the item (macro or function) that contains the accept loop, and every function it calls per
+    # connection in the same file (one level: e.g. a `serve_client` the loop spawns)
+    at = code.index(".incoming()")
+    starts = [m.start() for m in re.finditer(r"macro_rules!\s*\w+|\bfn\s+\w+", code) if m.start() < at]
+    if not starts:
+        raise GenError("tacd accept loop not recognised (no enclosing item)")
+    macro = _braced(code, starts[-1])
+    for fname in set(re.findall(r"\b(\w+)\s*\(", macro)):
+        m2 = re.search(r"\bfn\s+%s\b" % re.escape(fname), code)
+        if m2 and m2.start() != starts[-1] and fname not in ("start",):
+            body2 = _braced(code, m2.start())
+            if ".accept(" in body2:
+                macro += "\n" + body2
     other_panics = len(re.findall(r"\b(unwrap|expect)\s*\(|panic!|unreachable!|\[[a-z_]+\s*\.\.", macro))
-    loop_exits = not bool(re.search(r"if let Ok\(stream\) = stream", code))
-    # `?` / return / break inside the accept loop (after the bind) leave the loop for good
-    body = macro[macro.index(".incoming()"):] if ".incoming()" in macro else macro
-    early = len(re.findall(r"\?\s*;|\breturn\b|\bbreak\b|process::exit", body))
-    loop_exits = loop_exits or early > 0
+    # the loop itself: the block of the `for … in ….incoming()` statement, without the bodies of the
+    # closures it spawns (a `return` inside a connection thread does not leave the accept loop)
+    item = _braced(code, starts[-1])
+    fm = None
+    for m3 in re.finditer(r"\bfor\b", item):
+        if ".incoming()" in item and m3.start() < item.index(".incoming()") and \
+                ".incoming()" in _braced(item, m3.start()).split("{")[0]:
+            fm = m3
+    if fm is None:
+        # the iterator is handed to another function of the file: `accept_loop(listener.incoming(), …)`
+        mcall = re.search(r"\b(\w+)\s*\(\s*[\w.]+\.incoming\(\)", item)
+        mdef = re.search(r"\bfn\s+%s\b" % re.escape(mcall.group(1)), code) if mcall else None
+        if not mdef:
+            raise GenError("tacd accept loop not recognised (no `for … in ….incoming()`)")
+        item = _braced(code, mdef.start())
+        fm = re.search(r"\bfor\b", item)
+        if fm is None:
+            raise GenError("tacd accept loop not recognised (no loop in %s)" % mcall.group(1))
+        macro += "\n" + item
+        for fname in set(re.findall(r"\b(\w+)\s*\(", item)):
+            m2 = re.search(r"\bfn\s+%s\b" % re.escape(fname), code)
+            if m2 and m2.start() != mdef.start():
+                body2 = _braced(code, m2.start())
+                if ".accept(" in body2:
+                    macro += "\n" + body2
+        other_panics = len(re.findall(r"\b(unwrap|expect)\s*\(|panic!|unreachable!|\[[a-z_]+\s*\.\.", macro))
+    loop_text = _braced(item, fm.start())
+    while True:
+        mc = re.search(r"\|\|\s*\{|\|\w*\|\s*\{", loop_text)
+        if not mc:
+            break
+        blk = _braced(loop_text, mc.start())
+        loop_text = loop_text.replace(blk, "<closure>", 1)
+    var = re.search(r"\bfor\s+(\w+)\s+in\b", loop_text)
+    v = var.group(1) if var else "stream"
+    skips = bool(re.search(r"if\s+let\s+Ok\(\w+\)\s*=\s*%s\b" % v, loop_text)
+                 or re.search(r"let\s+Ok\(\w+\)\s*=\s*%s\s+else\s*\{\s*continue" % v, loop_text)
+                 or re.search(r"match\s+%s\s*\{[^}]*Err\([^)]*\)\s*=>\s*(continue|\{\s*continue|\(\)|\{\s*\})" % v, loop_text, re.S)
+                 or re.search(r"\.incoming\(\)\s*\.\s*(flatten|filter_map)\b", item))
+    # `?` / return / break / exit inside the loop leave it for good
+    early = len(re.findall(r"\?\s*[;.)]|\breturn\b|\bbreak\b|process::exit|\b%s\s*\.\s*(unwrap|expect)\s*\(" % v, loop_text))
+    loop_exits = (not skips) or early > 0
     text = ("/- GENERATED by /verif/py/gen.py from /repo/Cargo.toml, Makefile, tacd/src/openssl_server.rs on\n"
             "   every run. Do not edit. -/\nnamespace AcmedVerif.Gen\n\n"
             "def releasePanicAbort : Bool := %s\n"
